@@ -6,39 +6,43 @@ from common import sh2
 
 LEVEL = "proof"
 MANIFEST = {
-    "technique": "Coq proof over a hand-written Gallina model of cmd/mp4ff-crop (table-cropping routines, fillTrakOutsAndByteRanges, "
-                 "updateChunkOffsets, the duration arithmetic of writeUptoMdat, writeMdat over C08's CopyData model) on the C09 table model "
+    "technique": "Coq proof over a hand-written Gallina model of cmd/mp4ff-crop (C10Model.v: table-cropping routines, findEndTime, findTrakEnds, "
+                 "fillTrakOutsAndByteRanges, updateChunkOffsets, the duration arithmetic of writeUptoMdat, writeMdat over C08's CopyData model; "
+                 "C10FileModel.v: cropMP4 as a whole = reference-track choice -> findEndTime -> cropToTime with sizeWithoutMdat computed from "
+                 "the Size() of the cropped table boxes -> writeMdat) on the C09 table model "
                  "+ differential correspondence (extracted OCaml vs the real unexported routines and cropMP4 on virtual input files, reached "
                  "through a verif-tagged test driver) + whole-tool runs of the built mp4ff-crop binary on synthesized progressive files",
-    "level_text": "Theorems (coq/c10/C10Theorems.v), all for ALL inputs: (1) for consistent tables and every k in 1..N the tables produced by "
-                  "cropStts/cropCtts/cropStsz/cropSdtp/cropStss/cropStsc expand to the k-prefix of the input's expansion and are consistent "
-                  "again; k as computed by findTrakEnds is the number of samples starting before the track end time; findEndTime is "
-                  "characterised with and without stss. (2) fillTrakOutsAndByteRanges TERMINATES within 1 + (kept chunks) iterations and never "
-                  "fails (C10_fill_terminates), so the layout theorem is unconditional (C10_layout_total); its byte ranges lie in the input file "
-                  "(C10_layout_ranges). (3) C10_samples_end_to_end: any number of tracks, stco or co64, arbitrary interleaving, output file = "
-                  "S arbitrary bytes (the re-encoded non-mdat boxes) ++ mdat header of h bytes ++ concatenated ranges: whenever cropStblChildren "
-                  "and updateChunkOffsets (shift by S + h - firstOffset; the repaired text refuses an stco offset >= 2^32) succeed on a track, "
-                  "every new chunk offset o satisfies S+h <= o and o + kept chunk bytes <= end of the new mdat, and every kept sample located "
-                  "through the OUTPUT's tables (C09Spec S_offset_of/S_size) has the input's size and the input's bytes; h must equal the length of "
-                  "the header written (8, C10_write_mdat) - C10_offsets_input_header_refuted shows the statement false for h = the input's 16-byte "
-                  "header. C10_output_readable: the shifted output tables are consistent and C09's trak_get_ranges (GetRangesForSampleInterval) on "
-                  "them returns for every kept sample the one range holding the input's bytes. C10_crop_to_time: the composed statement about "
-                  "crop_to_time = findTrakEnds -> fill -> cropStblChildren -> updateChunkOffsets (the function tied to cropMP4 by the virt "
-                  "correspondence): k = number of samples starting before the rescaled end time, all per-sample lists of the output are k-prefixes, "
-                  "offsets inside the new mdat, bytes preserved. (4) C10_write_mdat: writeMdat on the lazily decoded input mdat writes an 8-byte header + exactly the bytes of the ranges. "
-                  "(5) C10_header_durations: whenever writeUptoMdat succeeds every tkhd duration is the new duration <= the original, mdhd is "
-                  "untouched, every elst segment duration <= the original, and the new mvhd duration <= the original for a conforming input (mvhd "
-                  "duration >= some tkhd duration); without that guard it is false (C10_mvhd_duration_refuted, known finding C10-F9). "
-                  "Explored only (correspondence + search): findEndTime's result feeding crop_to_time (crop_mp4, tied to cropMP4 on virtual files "
-                  "incl. a 4 GiB one; findEndTime itself is characterised separately), the wiring of writeUptoMdat/writeMdat after it, and the whole binary on synthesized files (8/16-byte input mdat "
-                  "header, mdat before/after moov, free/skip/unknown boxes in between, stco/co64): every kept sample is read back through the "
-                  "output's tables and compared byte by byte, every chunk checked to lie inside the new mdat.",
-    "level_note": "Trusted: Coq kernel, extraction, OCaml/Go glue, hand transcription checked only differentially; the box ENCODING of the "
-                  "output (moov/ftyp/free bytes and their total size S = sizeWithoutMdat) is not modelled: the theorems hold for any S bytes, and "
-                  "the whole-tool runs decode the real output; hypotheses of the composed theorem: static_ok per track (consistent tables, "
-                  "track id != 0, chunk offsets in [1,2^62), chunks inside the file), positive stts deltas, end time inside every track, "
-                  "2^62 + 2*sample bytes < 2^64; writeMdat is proved for the lazy mdat mode the tool uses (non-empty payload, file "
-                  "< 2^63 bytes, payload < 2^32-8).",
+    "level_text": "Theorems (coq/c10/C10Theorems.v), all for ALL inputs. C10_crop_end_to_end (the property, about crop_mp4_file/"
+                  "crop_mp4_output = cropMP4): any number of tracks with handler types, every track static_ok (consistent tables, id != 0, chunk "
+                  "offsets in [1,2^62) in ANY order - non-monotone, overlapping, zero-size, adjacent chunks included, ex_wild_layout -, chunks "
+                  "inside the file), stts deltas positive, >= 1 sample, every requested duration ms; NOTHING assumed about the end time. If "
+                  "the tool succeeds: the reference track is the first 'vide' track else the first 'soun' track (C10_reference_track); T is "
+                  "the start of the first sync sample of it starting at or after floor(ms*timescale/1000) and not sample 1 (exact comparison "
+                  "under the guard (ms*timescale) mod 1000 = 0: C10_end_time_exact; false without: C10_end_time_exact_refuted = known C10-F6); "
+                  "the end time rescaled per track lies inside every track (derived from success); for every track k_t = number of samples "
+                  "starting before floor(T*ts_t/ts_ref) >= 1 (exact count under C10_k_exact / C10_k_same_timescale's guards; "
+                  "C10_k_exact_refuted = known C10-F7), the output tables are consistent, hold k_t samples, every per-sample list (durations, "
+                  "sizes, composition offsets, sync samples, sdtp, chunk membership) is the k_t-prefix of the input's; the output file is "
+                  "pre ++ (32-bit size,'mdat') ++ byte ranges with |pre| = sizeWithoutMdat = rest + Size() of the OUTPUT's table boxes "
+                  "(C10_size_without_mdat; sizes = C01's size_leaf: C10_table_sizes_c01), payload < 2^32-8, every chunk offset o has "
+                  "|pre|+8 <= o and o + kept chunk bytes <= end of the new mdat, every kept sample read through the OUTPUT tables (C09 "
+                  "S_offset_of/S_size/trak_get_ranges) yields the input's bytes. writeMdat: lazy mode C10_write_mdat + C10_write_mdat_inv "
+                  "(success => header + exactly the ranges), in-memory mode (File.Mdat.Data) C10_write_mdat_mem for ranges starting inside "
+                  "the input payload; C10_write_mdat_modes_differ: an empty range at the end of the payload is refused in memory only. "
+                  "Earlier theorems kept: per-routine crop theorems, C10_k, C10_end_time_*, C10_fill_terminates, C10_layout(_total/_ranges), "
+                  "C10_samples_end_to_end, C10_output_readable, C10_crop_to_time, C10_header_durations (+ C10_mvhd_duration_refuted = known "
+                  "C10-F9), C10_offsets_input_header_refuted, C10_stco_wrap_refuted. "
+                  "Explored only (correspondence + search): the ENCODING of the non-mdat boxes (pre: any bytes of the modelled length), the "
+                  "wiring of writeUptoMdat between updateChunkOffsets and writeMdat, the composed theorem for the in-memory mode (chunks inside "
+                  "the input mdat payload would be an extra hypothesis), duplicate track ids (the tool keys its per-track state by track id; "
+                  "the model by position), and the whole binary on synthesized files.",
+    "level_note": "Trusted: Coq kernel, extraction, OCaml/Go glue, hand transcription checked only differentially (virt correspondence: the "
+                  "model's sizeWithoutMdat, computed from rest = real size minus the real Size() of the input's table boxes, must equal the "
+                  "start of the mdat cropMP4 writes; a checksum of the written mdat payload must equal the model's write_mdat bytes, lazy and "
+                  "in-memory input mdat; handler letters v/s/o per track); the byte encoding of moov/ftyp/free is not modelled (only its "
+                  "length); `rest` (bytes of the boxes the crop does not resize) is an input of the model; hypotheses of the end-to-end "
+                  "theorem: trak_wf per track, 2^62 + 2*sample bytes < 2^64, |pre| + 8 + 2*sample bytes < 2^64, input file < 2^63 bytes, "
+                  "lazily decoded non-empty input mdat; C10SizeProofs imports coq/c01/C01Model.v read-only.",
 }
 
 
@@ -63,8 +67,10 @@ def run(ctx):
         "model: coq/c10/C10Model.v is a hand transcription of cropStts/Stss/Ctts/Stsc/Stsz/Sdtp, updateStco/Co64, findEndTime, "
         "findTrakEnds, fillTrakOutsAndByteRanges, updateChunkOffsets, writeUptoMdat (durations), writeMdat, cropToTime of "
         "cmd/mp4ff-crop/main.go over the C09 table model (coq/c09/C09Model.v) and C08's CopyData model (coq/c08/C08Model.v)",
-        "the size of the re-encoded non-mdat boxes (sizeWithoutMdat) is an input of the model: in the virt correspondence it is read "
-        "off the real output",
+        "model: coq/c10/C10FileModel.v: reference-track choice, Size() of the eight table boxes, sizeWithoutMdat, cropMP4 "
+        "(crop_mp4_file, crop_mp4_output); `rest` = the bytes of the non-mdat boxes other than the table boxes is an input of the model: "
+        "in the virt correspondence it is the real old size minus the real Size() of the input's table boxes, and the model's "
+        "sizeWithoutMdat must equal the start of the mdat the real cropMP4 writes",
         "spec: coq/c09/C09Spec.v expansion + consistent; the prefix statements of coq/c10/C10Theorems.v",
         "test driver: /repo/cmd/mp4ff-crop/c10_verif_test.go (add-only, //go:build verif) builds the boxes and calls the routines",
         "search oracle: harness/c09/tbl Expand (independent expansion) on the routines' results and on decoded output files; "
@@ -73,7 +79,9 @@ def run(ctx):
     ctx.assumptions += [
         "input tables satisfy C09Spec.consistent; 1 <= k <= N",
         "whole tool: files synthesized by the harness (1-3 tracks, video/audio, with/without ctts/stss/sdtp/edts, stco/co64, "
-        "interleaved chunks with optional gaps, mdat before or after moov, 8-byte or 16-byte (largesize) mdat header, optional "
+        "interleaved chunks with optional gaps, one file in three with a WILD chunk layout (one random global order: offsets not "
+        "increasing inside a track, chunks sharing bytes or starting at the same offset, zero-size chunks, merged neighbours), "
+        "mdat before or after moov, 8-byte or 16-byte (largesize) mdat header, optional "
         "free/skip/unknown box between moov and mdat, 1 in 12 with an mvhd duration below the track durations)",
         "end-to-end theorem: static_ok (consistent tables, non-zero track ids, chunk offsets in [1,2^62), chunks inside the file), "
         "2^62 + 2*(sample bytes) < 2^64, S + h + sample bytes < 2^64",
@@ -120,7 +128,9 @@ def run(ctx):
                             "the offsets, sizes near 2^63/2^64); writeUptoMdat durations (1-3 tracks, 0-2 elst boxes, 1/12 refused, 1/10 short "
                             "mvhd, malformed: timescale 0, wrapping product); writeMdat (0-4 ranges, lazy 3/4, malformed: outside payload/file, "
                             "inverted, empty lazy payload); cropMP4 on virtual files (3 durations per table set, mdat first/last, 8/16-byte "
-                            "header, free/skip/unknown box) + the 4 GiB stco witness",
+                            "header, free/skip/unknown box, handler v/s/o per track incl. no video / no video or audio, input mdat decoded "
+                            "lazily 2/3 or into memory 1/3, sizeWithoutMdat and payload checksum compared) + the 4 GiB stco witness; one "
+                            "table set in three (fill, shift, virt) with the wild chunk layout",
         }
         ctx.cov["samples"] += [l[:300] for l in lines[:2]] + [l[:300] for l in lines[-2:]]
         ctx.log("correspondence: %d cases %s, %d mismatches" % (len(lines), kinds, len(mism)))
